@@ -4,6 +4,8 @@
 package impl
 
 import (
+	"time"
+
 	"github.com/metrico/qryn/writer/model"
 	"github.com/metrico/qryn/writer/service"
 	"github.com/metrico/qryn/zzverif/vrt"
@@ -110,6 +112,89 @@ func VH_C02_spans() {
 			vrt.Assert(acq.timestampNs.Data[j] == r.MTimestampNs[i], "row-timestamp-from-its-own-request-row")
 			vrt.Assert(acq.durationNs.Data[j] == r.MDurationNs[i], "row-duration-from-its-own-request-row")
 			vrt.Assert(acq.name.Data.Row(j) == r.MName[i], "row-name-from-its-own-request-row")
+			j++
+		}
+	}
+	vrt.Reach("end")
+}
+
+func vcSeries(tag string, n int) *model.TimeSeriesData {
+	d := &model.TimeSeriesData{}
+	for i := 0; i < n; i++ {
+		d.MDate = append(d.MDate, time.Unix(1700000000+int64(vrt.Choice(tag+"-day", 3))*86400, 0).UTC())
+		d.MLabels = append(d.MLabels, `{"l":"`+vrt.String(tag+"-label", 1)+`"}`)
+		d.MFingerprint = append(d.MFingerprint, vrt.Uint64(tag+"-fingerprint"))
+		d.MType = append(d.MType, vrt.Byte(tag+"-type"))
+		d.Size += 40
+	}
+	return d
+}
+
+// VH_C02_series: two series requests (0..2 rows each) appended to one shared block by the real time_series
+// ProcessRequest: rectangular block, row j = row j of the submitting request (date, fingerprint, labels, type),
+// reported row count right.
+func VH_C02_series() {
+	vrt.Unwind(300)
+	service.CreateColPools(4)
+	svc := vcMultimodal(NewTimeSeriesInsertService(model.InsertServiceOpts{Node: &model.DataDatabasesMap{}}))
+	cols := svc.AcquireColumns()
+	a, b := vcSeries("a", vrt.Len("rows-a", 0, 2)), vcSeries("b", vrt.Len("rows-b", 0, 2))
+	n1, cols, err := svc.ProcessRequest(a, cols)
+	vrt.Assert(err == nil && n1 == len(a.MDate), "request-accepted-with-its-row-count")
+	n2, cols, err := svc.ProcessRequest(b, cols)
+	vrt.Assert(err == nil && n2 == len(b.MDate), "request-accepted-with-its-row-count")
+	vcRectangular(cols, n1+n2)
+	acq := (&TimeSeriesAcquirer{}).deserialize(cols)
+	j := 0
+	for _, r := range []*model.TimeSeriesData{a, b} {
+		for i := range r.MDate {
+			vrt.Assert(int64(acq.Date.Data[j]) == r.MDate[i].Unix()/86400, "row-date-from-its-own-request-row")
+			vrt.Assert(acq.Fingerprint.Data[j] == r.MFingerprint[i], "row-fingerprint-from-its-own-request-row")
+			vrt.Assert(acq.Type.Data[j] == r.MType[i], "row-type-from-its-own-request-row")
+			vrt.Assert(acq.Labels.Data.Row(j) == r.MLabels[i], "row-labels-from-its-own-request-row")
+			j++
+		}
+	}
+	vrt.Reach("end")
+}
+
+func vcTags(tag string, n int) *model.TempoTag {
+	d := &model.TempoTag{}
+	for i := 0; i < n; i++ {
+		d.MTraceId = append(d.MTraceId, vrt.Bytes(tag+"-trace-id", 16))
+		d.MSpanId = append(d.MSpanId, vrt.Bytes(tag+"-span-id", 8))
+		d.MTimestampNs = append(d.MTimestampNs, vrt.Int64(tag+"-ts"))
+		d.MDurationNs = append(d.MDurationNs, vrt.Int64(tag+"-dur"))
+		d.MKey = append(d.MKey, vrt.String(tag+"-key", 1))
+		d.MVal = append(d.MVal, vrt.String(tag+"-val", 1))
+		d.MDate = append(d.MDate, time.Unix(1700000000, 0).UTC())
+		d.Size += 60
+	}
+	return d
+}
+
+// VH_C02_tags: the same for trace tag rows.
+func VH_C02_tags() {
+	vrt.Unwind(300)
+	service.CreateColPools(4)
+	svc := vcMultimodal(NewTempoTagsInsertService(model.InsertServiceOpts{Node: &model.DataDatabasesMap{}}))
+	cols := svc.AcquireColumns()
+	a, b := vcTags("a", vrt.Len("rows-a", 0, 2)), vcTags("b", vrt.Len("rows-b", 0, 2))
+	n1, cols, err := svc.ProcessRequest(a, cols)
+	vrt.Assert(err == nil && n1 == len(a.MKey), "request-accepted-with-its-row-count")
+	n2, cols, err := svc.ProcessRequest(b, cols)
+	vrt.Assert(err == nil && n2 == len(b.MKey), "request-accepted-with-its-row-count")
+	vcRectangular(cols, n1+n2)
+	acq := (&tempoTagsAcquirer{}).fromIFace(cols)
+	j := 0
+	for _, r := range []*model.TempoTag{a, b} {
+		for i := range r.MKey {
+			vrt.Assert(string(acq.traceId.Data.Row(j)) == string(r.MTraceId[i]), "row-trace-id-from-its-own-request-row")
+			vrt.Assert(string(acq.spanId.Data.Row(j)) == string(r.MSpanId[i]), "row-span-id-from-its-own-request-row")
+			vrt.Assert(acq.key.Data.Row(j) == r.MKey[i], "row-key-from-its-own-request-row")
+			vrt.Assert(acq.val.Data.Row(j) == r.MVal[i], "row-value-from-its-own-request-row")
+			vrt.Assert(acq.timestampNS.Data[j] == r.MTimestampNs[i], "row-timestamp-from-its-own-request-row")
+			vrt.Assert(acq.durationNS.Data[j] == r.MDurationNs[i], "row-duration-from-its-own-request-row")
 			j++
 		}
 	}
